@@ -208,6 +208,8 @@ class CtorHarness:
                 return v
             return NotImplemented
 
+        # expr(side) / expr(x): Expr.__call__ from source (restriction through the lifted constructors)
+        ip.call_value = lambda t, args, kwargs: ip.call_function(fn("_call"), [t] + list(args), dict(kwargs))
         ip.binop_hook = binop_hook
         ip.subscript_hook = subscript_hook
         ip.unop_hook = unop_hook
